@@ -16,7 +16,7 @@ The subset is deliberately small; anything outside it raises EvalError, which th
                `_`, bindings, tuple patterns, constants, bool literals, guards), `matches!`, `!` `&&` `||` `==` `!=`,
                `.0`-style tuple fields, calls of free functions of the file, method calls on an enum constant
                (resolved in the `impl` of the enum given by the caller), Option's `as_ref` / `copied` / `map` /
-               `unwrap_or` / `is_some` / `is_none` / `map_or`, `return`
+               `unwrap_or` / `is_some` / `is_none` / `map_or`, `return`, `e?` on an Option (outside closures)
 Soundness does not rest on this evaluator: the tables it yields are DATA for the hand model; the function
 translator translates the same functions and Proofs/*Gen.v prove translation = hand model over those tables, so a
 table read off wrongly can only make a proof fail."""
@@ -63,6 +63,7 @@ class Evaluator:
         self.variants = [v[0] for v in ens[0].variants]
         self.enum_items = enum_items
         self.in_enum_impl = 0
+        self.in_closure = 0
         self.depth = 0
 
     # -- values ---------------------------------------------------------------
@@ -117,17 +118,23 @@ class Evaluator:
         self.depth += 1
         if self.depth > DEPTH:
             raise EvalError("calls nested deeper than %d" % DEPTH)
+        in_closure, self.in_closure = self.in_closure, 0       # a `?` / `return` of the callee leaves the callee
         try:
             return self.expr(fn.body, env)
         except _Return as r:
             return r.v
         finally:
             self.depth -= 1
+            self.in_closure = in_closure
 
     def run(self, fn_name, variant, wrap=()):
         v = ("enum", variant)
         for c in wrap:          # constructors applied to the constant, innermost first
             v = ("ctor", c, [v])
+        return self.apply(self.free_fn(fn_name), [v])
+
+    def run_value(self, fn_name, v):
+        """the function on a value given as such (`("ctor", "None", [])`)"""
         return self.apply(self.free_fn(fn_name), [v])
 
     # -- patterns -------------------------------------------------------------
@@ -290,6 +297,15 @@ class Evaluator:
             raise EvalError("method %s on %r" % (e.name, recv))
         if k == "return":
             raise _Return(self.expr(e.e, env) if e.e is not None else ("tuple", []))
+        if k == "try":
+            # `e?` on an Option: Some(x) goes on with x, None is the value of the FUNCTION (closures are not entered with `?`
+            # pending: `callable` evaluates a closure body through `expr`, a _Return would leave the enclosing fn -> refuse)
+            v = self.expr(e.e, env)
+            if v[0] == "ctor" and v[1] == "Some" and len(v[2]) == 1 and not self.in_closure:
+                return v[2][0]
+            if v[0] == "ctor" and v[1] == "None" and not self.in_closure:
+                raise _Return(v)
+            raise EvalError("`?` on %r" % (v,))
         raise EvalError("expression %s%s" % (k, (" " + e.op) if k in ("unary", "binary") else ""))
 
     def callable(self, f, env):
@@ -305,7 +321,11 @@ class Evaluator:
                 for (pat, _ty), v in zip(f.params, a):
                     if not self.bind(pat, v, env2):
                         raise EvalError("closure: parameter pattern does not match")
-                return self.expr(f.body, env2)
+                self.in_closure += 1
+                try:
+                    return self.expr(f.body, env2)
+                finally:
+                    self.in_closure -= 1
             return call
         raise EvalError("a function argument that is neither a function of the file nor a closure")
 
@@ -357,9 +377,10 @@ def show(v):
     raise EvalError("an enum constant as result")
 
 
-def graph(src, fn_name, enum_path, enum_src, variants, what, wrap=()):
+def graph(src, fn_name, enum_path, enum_src, variants, what, wrap=(), extra=()):
     """[(variant, whitespace-free text of fn_name(<enum>::variant))] for every variant, in the order of `variants`;
-    with wrap = (c1, c2, ..) the argument is c2(c1(<enum>::variant))"""
+    with wrap = (c1, c2, ..) the argument is c2(c1(<enum>::variant)); extra = ((label, value), ..): further arguments given as
+    evaluator values (`("None", ("ctor", "None", []))`), their rows `(label, text)` come after the variants"""
     items = parse(src, what)
     ev = Evaluator(items, enum_path, parse(enum_src, "source of %s" % enum_path, uses=False))
     if sorted(ev.variants) != sorted(variants):
@@ -372,4 +393,11 @@ def graph(src, fn_name, enum_path, enum_src, variants, what, wrap=()):
             raise EvalError("%s: %s(%s): recursion" % (what, fn_name, v))
         except EvalError as e:
             raise EvalError("%s: %s(%s): %s" % (what, fn_name, v, e))
+    for label, val in extra:
+        try:
+            out.append((label, show(ev.run_value(fn_name, val))))
+        except RecursionError:
+            raise EvalError("%s: %s(%s): recursion" % (what, fn_name, label))
+        except EvalError as e:
+            raise EvalError("%s: %s(%s): %s" % (what, fn_name, label, e))
     return out
